@@ -67,3 +67,46 @@ theorem L_apply (i j : Fin N) : L i j = (Bm i j - if i = j then 1 else 0) * lam 
   split_ifs <;> ring
 
 end RdVerif.Icrp107
+
+namespace RdVerif.Icrp107
+open RdVerif RdVerif.Gen RdVerif.Gen.Icrp107.Obl
+
+theorem den_eq_zero_of_not_mem (r : Row) (k : ℕ) (h : ∀ e ∈ r, e.col ≠ k) : r.den k = 0 := by
+  induction r with
+  | nil => rfl
+  | cons e r ih =>
+    have he : e.col ≠ k := h e (by simp)
+    simp [Row.den, he, ih (fun f hf => h f (by simp [hf]))]
+
+theorem log_two_ne_zero : Real.log 2 ≠ 0 := by
+  have := Real.log_pos (by norm_num : (1 : ℝ) < 2)
+  exact ne_of_gt this
+
+theorem lam_eq_zero_iff (k : Fin N) : lam k = 0 ↔ get2 icrp107.rate k.val 0 = 0 := by
+  unfold lam rateVec
+  constructor
+  · intro h
+    rcases mul_eq_zero.mp h with h | h
+    · exact absurd h log_two_ne_zero
+    · exact_mod_cast h
+  · intro h
+    rw [h]; simp
+
+/-- **W6 over ℝ**: a stable nuclide feeds nothing — column `k` of `C` is zero off the diagonal
+when λ_k = 0 -/
+theorem stable_feeds_nothing (i k : Fin N) (hk : lam k = 0) (hne : k ≠ i) : C i k = 0 := by
+  have hrow := rows_checked (stableColsOk icrp107.rate) icrp107.cx N shape_cx
+    (fun b hb => w6_all b (Nat.lt_of_lt_of_eq hb nblocks)) i.val i.isLt
+  have hr : get2 icrp107.rate k.val 0 = 0 := (lam_eq_zero_iff k).mp hk
+  unfold C toMat
+  have : (getRow icrp107.cx i.val).den k.val = 0 := by
+    apply den_eq_zero_of_not_mem
+    intro e he hcol
+    have h1 := (List.all_eq_true.mp hrow) e he
+    simp only [Bool.or_eq_true, beq_iff_eq, bne_iff_ne, ne_eq] at h1
+    rcases h1 with h1 | h1
+    · exact hne (Fin.ext (by rw [← hcol, h1]))
+    · rw [hcol] at h1; exact h1 hr
+  rw [this]; simp
+
+end RdVerif.Icrp107
